@@ -378,7 +378,7 @@ Section Walks.
   Proof.
     unfold load_unregistered_manifests.
     destruct (get_file_entry_dict L decompress pgp_verify w l path (Some [TIGNORE]) v) as [[l1 ed]|] eqn:Eg; cbn [bind]; [|discriminate].
-    destruct (walk_unreg L decompress pgp_verify (nodes_fuel w) w l1 (pjoin rootdir path) path [] ed []) as [[[i l2] found]|] eqn:Ew; cbn [bind]; [|discriminate].
+    destruct (walk_unreg L decompress pgp_verify (nodes_fuel w) w l1 (walk_top path) path [] ed []) as [[[i l2] found]|] eqn:Ew; cbn [bind]; [|discriminate].
     intros H. inversion H; subst. eapply step_trans; [eapply gfed_step; exact Eg|].
     apply (walk_unreg_step _ _ _ _ _ _ _ _ _ Ew).
   Qed.
@@ -682,7 +682,7 @@ Section Upd2.
     assert (P2 : o_profile (l_opts l2) = PDefault).
     { destruct S1 as [_ [O1 _]]. destruct S2 as [_ [O2 _]]. rewrite O2, O1. exact Hp. }
     match goal with |- (s <- walk_update _ _ _ _ _ _ _ _ _ _ ?s0 ;; _) = _ -> _ => set (s00 := s0) end.
-    destruct (walk_update L decompress pgp_verify (nodes_fuel w) w (pjoin rootdir path) path nm hs lm s00) as [s|] eqn:Ew; cbn [bind]; [|discriminate].
+    destruct (walk_update L decompress pgp_verify (nodes_fuel w) w (walk_top path) path nm hs lm s00) as [s|] eqn:Ew; cbn [bind]; [|discriminate].
     assert (I0 : UInv s00) by (split; [exact W2|split; [exact D2|exact P2]]).
     pose proof (walk_update_step _ _ _ _ _ _ _ _ _ I0 Ew) as [S3 B3]. cbn [us_l us_ed s00] in S3, B3.
     pose proof (UInv_UR _ _ I0 (conj S3 B3)) as [W3 [D3 _]].
